@@ -107,6 +107,120 @@ def correspond(ctx, res):
     corr_parse.run(ctx, res, ctx.n(1500, 30000), "C01")
 
 
+def kernel_correspond(ctx, res):
+    """Model/Site.kstat (the kernel's resolution of root + selector on a whole file-system tree, `..` included) vs
+    os.stat / os.listdir / open on a real tree; then the whole-site model vs the real server (sitecorr)."""
+    import stat as st_mod
+    import sitecorr
+    rng = ctx.rng
+    tree = pyg.Tree()
+    try:
+        T = tree.tmp
+        recs = []
+
+        def w(rel, data=None):
+            p = os.path.join(T, rel)
+            if data is None:
+                os.makedirs(p, exist_ok=True)
+                recs.append(("/T/" + rel, "d", b""))
+            else:
+                os.makedirs(os.path.dirname(p), exist_ok=True)
+                with open(p, "wb") as f:
+                    f.write(data)
+                recs.append(("/T/" + rel, "f", data))
+        os.rmdir(tree.root)
+        w("secret.txt", b"TOP")
+        w("a", None)
+        w("a/side.txt", b"side")
+        w("a/b", None)
+        w("a/b/root", None)
+        w("a/b/rootx", None)            # a sibling whose name extends the root's
+        w("a/b/rootx/f", b"sib")
+        w("a/b/root/README", b"hello")
+        w("a/b/root/docs", None)
+        w("a/b/root/docs/a.txt", b"doc a")
+        w("a/b/root/docs/sub", None)
+        w("a/b/root/docs/sub/deep.txt", b"deep")
+        w("a/b/root/a..b", b"dots")
+        w("a/b/root/sp ace", None)
+        w("a/b/root/sp ace/x", b"x")
+        root_real = os.path.join(T, "a/b/root")
+        root_model = "/T/a/b/root"
+        pool = ["..", ".", "", "docs", "sub", "README", "a.txt", "deep.txt", "a..b", "sp ace", "x", "nope", "side.txt", "secret.txt", "b", "a", "root", "rootx", "f", "..."]
+        queries = ["/", "/..", "/../..", "/../../..", "/../../../secret.txt", "/../../side.txt", "/docs/../README", "/docs/sub/../../README", "/README/", "/README/x",
+                   "/docs/", "/docs//a.txt", "/./docs/./a.txt", "/../rootx/f", "/../root/README", "x/f", "/a..b", "/docs/.../a.txt"]
+        kidsof = {}
+        for p_, k, _d in recs:
+            parent, name = p_.rsplit("/", 1)
+            kidsof.setdefault(parent, []).append(name)
+        for _ in range(ctx.n(300, 5000)):
+            # a mostly valid random walk: down into existing members, up with '..', with '.', '' and unknown names mixed in
+            pos = ["T", "a", "b", "root"]
+            comps = []
+            for _step in range(rng.randint(1, 7)):
+                r_ = rng.random()
+                here = kidsof.get("/" + "/".join(pos), [])
+                if r_ < 0.5 and here:
+                    c = rng.choice(here)
+                    pos.append(c)
+                elif r_ < 0.75 and len(pos) > 1:
+                    c = ".."
+                    pos.pop()
+                elif r_ < 0.85:
+                    c = rng.choice([".", ""])
+                else:
+                    c = rng.choice(pool)
+                    pos.append(c)
+                comps.append(c)
+            queries.append(rng.choice(["/", "/", "/", ""]) + "/".join(comps) + rng.choice(["", "", "/"]))
+        keep = []
+        for q in queries:
+            # stay inside T: the model's "/" holds T only, the real one holds the machine
+            depth, ok = 3, True
+            for c in (root_model[2:] + q).split("/")[3:]:
+                pass
+            d = 3
+            for c in q.split("/"):
+                if c == "..":
+                    d -= 1
+                elif c not in ("", "."):
+                    d += 1
+                if d < 0:
+                    ok = False
+            if ok and "\0" not in q:
+                keep.append(q)
+        line = "\t".join(["kstat", " ".join(";".join([enc_str(p_), k, enc_str(d_.decode("latin-1")) if d_ else "-"]) for p_, k, d_ in recs),
+                          enc_str(root_model), ",".join(enc_str(q) for q in keep)])
+        outs = ctx.driver.run([line])[0].split(" ")
+        for q, o in zip(keep, outs):
+            res.evaluations += 1
+            p = root_real + q
+            if p.endswith("/"):
+                p = p[:-1]
+            try:
+                s_ = os.stat(p)
+                if st_mod.S_ISDIR(s_.st_mode):
+                    real = "d:" + ",".join(sorted(enc_str(x) for x in os.listdir(p))) if os.listdir(p) else "d:~"
+                elif st_mod.S_ISREG(s_.st_mode):
+                    data = open(p, "rb").read()
+                    real = "f:" + (enc_str(data.decode("latin-1")) if data else "-")
+                else:
+                    real = "o"
+            except OSError:
+                real = "-"
+            model = o
+            if o.startswith("d:") and o != "d:~":
+                model = "d:" + ",".join(sorted(o[2:].split(",")))
+            res.count("kstat:" + ("climbs" if ".." in q.split("/") else "plain") + ":" + real[:1])
+            if ".." in q.split("/") and real != "-":
+                res.nontrivial.add(("kstat", q))
+            if model != real:
+                res.disagree("C01.kernel-resolution", {"root": "<T>/a/b/root", "selector": q}, model, real)
+    finally:
+        tree.close()
+    sitecorr.compare(ctx, res, ctx.n(3, 40), "C01")
+
+
 ALLOWED_PREFIXES = None
 
 
@@ -342,6 +456,7 @@ def run(ctx):
         "audit hook sees every open/listdir/scandir/Popen/mkdir made through the Python runtime",
     ]
     correspond(ctx, res)
+    kernel_correspond(ctx, res)
     oracle(ctx, res)
     res.degraded = list(pyg.degraded)
     return res
